@@ -171,6 +171,9 @@ impl Monitor for C14 {
         }
         if pws != c.pattern && base.compile.is_ok() {
             obs.count("whitespace_inserted");
+            if c.dialect == Dialect::Xsd {
+                obs.count("xsd_dialect_whitespace_inserted");
+            }
             obs.nontrivial(c.key());
             if obs.want_sample() && c.pattern.chars().count() > 3 {
                 obs.sample(c.to_json().with("is_match", J::s(&format!("{:?}", base.is_match))));
@@ -186,15 +189,25 @@ impl Monitor for C14 {
         cfg.max_top = 5;
         let ws = ['\t', '\n', '\r', ' '];
         let not_ws = ['\u{c}', '\u{b}', '\u{a0}', '\u{85}', '\u{2028}'];
+        // the XSD dialect takes flag x as well: patterns of the common subset, rendered for it
+        let mut cfg_xsd = cfg.clone();
+        cfg_xsd.anchors = false;
+        cfg_xsd.backrefs = false;
+        cfg_xsd.reluctant = false;
+        cfg_xsd.ncgroups = false;
         for k in 0..n {
-            let mut ast = gen_pattern(&mut rng, &cfg);
+            let xsd = k % 7 == 3;
+            let mut ast = gen_pattern(&mut rng, if xsd { &cfg_xsd } else { &cfg });
             if k % 6 == 5 {
                 // a character that is NOT in the list, as a literal: must survive flag x
                 let lit = Node::Char(*rng.pick(&not_ws));
                 ast = if rng.chance(1, 2) { Node::Cat(vec![ast, lit]) } else { Node::Cat(vec![lit, ast]) };
             }
             let ast = blank_to_class(&ast);
-            let mut p = ast.render();
+            let mut p = if xsd { ast.render_xsd() } else { ast.render() };
+            if xsd && (p.contains("(?:") || !matches!(crate::grammar::parse(&p, true, false), crate::grammar::Parsed::Valid(_))) {
+                continue;
+            }
             if k % 10 == 9 {
                 p = mutate(&mut rng, &p);
                 if crate::grammar::strip_x(&p) != p {
@@ -216,6 +229,9 @@ impl Monitor for C14 {
                 }
                 let mut c = Case::raw(&p, fl, &inp);
                 c.aux = Some(pws.clone());
+                if xsd {
+                    c.dialect = Dialect::Xsd;
+                }
                 emit(c);
             }
         }
@@ -450,15 +466,16 @@ pub fn rewrites(n: &Node, allow_dup: bool) -> Vec<(&'static str, Node)> {
         Node::NcGroup(b) => out.push(("(?:r) = r", (**b).clone())),
         Node::Group(b) => out.push(("(r) = (?:r) [group not back-referenced]", Node::NcGroup(b.clone()))),
         Node::Char(c) => out.push(("x = [x]", Node::Class(ClassExpr { neg: false, items: vec![ClassItem::Ch(*c)], sub: None }))),
-        Node::Class(ce) if !ce.neg && ce.sub.is_none() && !ce.items.is_empty() && ce.items.iter().all(|i| matches!(i, ClassItem::Ch(_))) => {
-            let alts: Vec<Node> = ce
-                .items
-                .iter()
-                .map(|i| match i {
-                    ClassItem::Ch(c) => Node::Char(*c),
+        // single characters and short ranges (a range is the alternation of its members)
+        Node::Class(ce) if !ce.neg && ce.sub.is_none() && !ce.items.is_empty() && ce.items.iter().all(|i| matches!(i, ClassItem::Ch(_)) || matches!(i, ClassItem::Range(a, b) if (*b as u32) - (*a as u32) < 6 && (*a as u32 > 0xDFFF || (*b as u32) < 0xD800))) => {
+            let mut alts: Vec<Node> = vec![];
+            for i in &ce.items {
+                match i {
+                    ClassItem::Ch(c) => alts.push(Node::Char(*c)),
+                    ClassItem::Range(a, b) => alts.extend((*a as u32..=*b as u32).filter_map(char::from_u32).map(Node::Char)),
                     _ => unreachable!(),
-                })
-                .collect();
+                }
+            }
             if alts.len() == 1 {
                 out.push(("[x] = x", alts[0].clone()));
             } else {
